@@ -104,15 +104,27 @@ Example C42_wf_examples :
   (exists x, dec_C42 ex_forged_close = Some x /\ wf_C42 x = true) /\
   (exists x, dec_C42 ex_clean = Some x /\ wf_C42 x = true /\ pads_ok x = true) /\
   (exists x, dec_C42 ex_ssl3_pad_tls = Some x /\ wf_C42 x = true /\ pads_ok x = false /\
-             run_C42 ex_ssl3_pad_tls = VL [VB []; VZ 120; VZ 0]) /\
+             run_C42 ex_ssl3_pad_tls = VL [VB []; VZ 120; VZ 0; VL [VL [VZ 0; VZ 120]; VL [VZ 0; VZ 120]]; VZ 120]) /\
   (exists x, dec_C42 ex_ssl3_pad_ssl3 = Some x /\ wf_C42 x = true /\ pads_ok x = true).
 Proof. exact wf_examples_lemma. Qed.
+
+(* Sticky error state.  After the Read call that returned the error st, every further Read call of the
+   model returns no byte and st again, whatever its buffer size (although readRecord parks the rejected
+   record in c.input: Conn.Read tests c.in.err first), so for EVERY number of Read calls the total number
+   of delivered bytes is the length of the authenticated prefix d of C42_prefix_only.  The harness makes
+   0-4 further Read calls with varying buffer sizes and a Write after the first error and compares;
+   prop_C42 demands (0, st) of each. *)
+Theorem C42_sticky_error : forall st bufs,
+  Forall (fun r => r = (0, st)) (reads_after st bufs) /\
+  forall d, total_delivered d (reads_after st bufs) = blen d.
+Proof. exact sticky_reads. Qed.
+Print Assumptions C42_sticky_error.
 
 (* Finding 1 (refutation of "every tampering is detected as an error"): dropping the last application
    record and the close_notify is reported as plain io.EOF. *)
 Theorem C42_tail_truncation_refuted : exists i x,
   dec_C42 i = Some x /\ wf_C42 x = true /\ relevant x = true /\ kf_C42 i = 1 /\
-  run_C42 i = VL [VB [104; 101; 108; 108; 111]; VZ 1; VZ 1] /\ prop_C42 i (run_C42 i) = false.
+  run_C42 i = VL [VB [104; 101; 108; 108; 111]; VZ 1; VZ 1; VL [VL [VZ 0; VZ 1]; VL [VZ 0; VZ 1]]; VZ 0] /\ prop_C42 i (run_C42 i) = false.
 Proof. exact tail_truncation_witness. Qed.
 Print Assumptions C42_tail_truncation_refuted.
 
@@ -126,7 +138,7 @@ Print Assumptions C42_tail_truncation_refuted.
 Theorem C42_ssl3_padding_refuted : exists x,
   dec_C42 ex_ssl3_longpad_flip = Some x /\ wf_base x = true /\ ssl3_longpad (i_cfg x) = true /\
   relevant x = true /\ kf_C42 ex_ssl3_longpad_flip = 2 /\
-  run_C42 ex_ssl3_longpad_flip = VL [VB [104; 101; 108; 108; 111; 119; 111; 114; 108; 100]; VZ 1; VZ 5] /\
+  run_C42 ex_ssl3_longpad_flip = VL [VB [104; 101; 108; 108; 111; 119; 111; 114; 108; 100]; VZ 1; VZ 5; VL [VL [VZ 0; VZ 1]; VL [VZ 0; VZ 1]]; VZ 0] /\
   prop_C42 ex_ssl3_longpad_flip (run_C42 ex_ssl3_longpad_flip) = false.
 Proof. exact ssl3_padding_witness. Qed.
 Print Assumptions C42_ssl3_padding_refuted.
@@ -135,8 +147,8 @@ Print Assumptions C42_ssl3_padding_refuted.
    relevant, not in the finding class, and end in bad_record_mac / unexpected_message after delivering
    only the genuine prefix. *)
 Example C42_examples :
-  run_C42 ex_flip_tag = VL [VB [104; 101; 108; 108; 111]; VZ 120; VZ 1] /\ kf_C42 ex_flip_tag = 0 /\
-  run_C42 ex_replay = VL [VB [104; 101; 108; 108; 111]; VZ 120; VZ 1] /\ kf_C42 ex_replay = 0 /\
-  run_C42 ex_forged_close = VL [VB [104]; VZ 110; VZ 1] /\ kf_C42 ex_forged_close = 0 /\
-  run_C42 ex_clean = VL [VB [104; 101; 108; 108; 111; 119; 111; 114; 108; 100]; VZ 1; VZ 5].
+  run_C42 ex_flip_tag = VL [VB [104; 101; 108; 108; 111]; VZ 120; VZ 1; VL [VL [VZ 0; VZ 120]; VL [VZ 0; VZ 120]]; VZ 120] /\ kf_C42 ex_flip_tag = 0 /\
+  run_C42 ex_replay = VL [VB [104; 101; 108; 108; 111]; VZ 120; VZ 1; VL [VL [VZ 0; VZ 120]; VL [VZ 0; VZ 120]]; VZ 120] /\ kf_C42 ex_replay = 0 /\
+  run_C42 ex_forged_close = VL [VB [104]; VZ 110; VZ 1; VL [VL [VZ 0; VZ 110]; VL [VZ 0; VZ 110]]; VZ 110] /\ kf_C42 ex_forged_close = 0 /\
+  run_C42 ex_clean = VL [VB [104; 101; 108; 108; 111; 119; 111; 114; 108; 100]; VZ 1; VZ 5; VL [VL [VZ 0; VZ 1]; VL [VZ 0; VZ 1]]; VZ 0].
 Proof. exact examples_lemma. Qed.
